@@ -30,7 +30,13 @@ CHECKS = [
         "side (Event.to_event_input, events_to_event_inputs, save_events_to_file, load_events_from_file over a ghost file system) writes one entry per "
         "event with one (type, count) list per successor / predecessor multiset and no other, and the lemmas rep_count / entries_denote / "
         "written_lists_denote / same_denotation_same_sets / model_round_trip give: the events loaded from what was written have the same types and the "
-        "same successor and predecessor multisets (93 clauses in contracts/c04.py; 21 in contracts/c04_eventset.py: the concrete EventSet under the dict view and get_event_set_counts, the counts each successor type was seen with). A mechanical scan "
+        "same successor and predecessor multisets (93 clauses in contracts/c04.py; 21 in contracts/c04_eventset.py: the concrete EventSet under the dict view and get_event_set_counts, the counts each successor type was seen with; "
+        "76 in contracts/c04_ingest.py: the fold of a run's evidence into the model it was given - update_and_create_events_from_graph_solution(s) of "
+        "tel2puml/pv_to_puml/data_ingestion.py: afterwards a type's successor / predecessor sets are the sets it had plus one multiset per occurrence "
+        "in the graph solutions, nothing else, every cache coherent; lemmas out_splits / chunked_equals_one_shot / chunk_order_irrelevant: folding chunk a "
+        "then chunk b gives the sets of folding a + b at once, in either order (graph solutions themselves - janus - are records these functions do not "
+        "modify; PV stream -> graph solution is not under contract); 22 in contracts/c04_models.py: pv_streams_to_puml_files gives every workflow name "
+        "its own loaded-or-empty model, its own jobs and its own files). A mechanical scan "
         "of tel2puml/** turns every syntactic mutation site of event_sets / the cached tree into an obligation `Event.frame@<function>` that must be "
         "covered by such a contract. BOUNDED complement (not counted as proved): on the real code with real model files, for all job sets of <= 3 jobs "
         "from a 9-job family (incl. jobs started by two events in parallel) and every split into save -> load -> continue, the final model has the event types, sets, counts and gate trees of the "
@@ -125,8 +131,13 @@ CHECKS += [
          "x time buffers x orders, the window step alone on stores with dangling parents, and two ingest + clean rounds on one holder.",
          "Bounded exploration on real sqlite for the SQL statements. Additionally PROVED (contracts/c11.py, 12 clauses): DataHolder.__init__/save_data track "
          "min start / max end, min_timestamp / max_timestamp give [0, MAXINT] when nothing was saved, get_time_window returns [min + b, max - b] and raises "
-         "ValueError exactly when that window is empty; two lemmas (no ingestion => everything; buffer 0 contains every saved span).",
-         "DESIGN.md 4/C11"),
+         "ValueError exactly when that window is empty; two lemmas (no ingestion => everything; buffer 0 contains every saved span). And PROVED "
+         "(contracts/c_run.py, 25 clauses): the composition of a run - otel_to_pv / ingest_data_into_dataholder apply remove_inconsistent_jobs, then "
+         "remove_jobs_outside_of_time_window (this holder's range and buffer), then update_job_names_by_root_span, once each, before anything is selected "
+         "or streamed, and ValueError exactly when the buffered window is empty - for every configuration and flag combination, with the store "
+         "operations themselves as TRUSTED leaves named by uninterpreted functions (their meaning is what the bounded harness decides); the same is "
+         "explored through the real entry point otel_to_pv (unique graphs on/off x buffer).",
+         "DESIGN.md I.2 (composition of one run), 4/C11"),
     bchk("C12", "BOUNDED (never counted as proved). Contract of stream_data over the abstract view: each workflow name once, under it each stored trace "
          "once (restricted by the optional filter), each trace's spans == its nodes rows with child links == its association rows; traces longer than / "
          "equal to / shorter than the batch size and off batch boundaries, interleaved ingestion order, one trace id under two workflow names, workflow names differing only in capitalisation.",
@@ -154,8 +165,11 @@ CHECKS += [
          "loaded decides the exception) and pv_files_to_pv_streams hands exactly that to the learner under the given workflow name (job files; grouping by job id "
          "is outside the precondition); lemmas "
          "load_inverts_save_event / load_inverts_save_file: loading what was saved under the same mapping (pairwise distinct names; default names when no "
-         "mapping was used) gives the events back. Files are a ghost map (json.dump / json.load trusted to be inverse; pydantic validation trusted).",
-         "DESIGN.md 4/C14"),
+         "mapping was used) gives the events back. Files are a ghost map (json.dump / json.load trusted to be inverse; pydantic validation trusted). "
+         "And PROVED (contracts/c04_models.py, 22 clauses): pv_streams_to_puml_files, where both routes end - every streamed workflow name learns its own "
+         "jobs into its own loaded-or-empty model under its own .puml / _model.json paths, models saved iff requested (callees pv_to_puml_file and "
+         "save_events_to_file trusted and logged in ghost lists).",
+         "DESIGN.md I.2 (one model per workflow name), 4/C14"),
     bchk("C15", "BOUNDED (never counted as proved). Every history of <= 3 runs (ingest / no ingest x unique graphs on / off) of the real entry point "
          "otel_to_pv over a file-backed store, with time_buffer 0 and 1: each run terminates, keeps the store well-formed (association rows match stored "
          "spans) and reproduces the PV sequences and selected shapes of the first run with the same flags. Stores include a disconnected trace, a parent "
@@ -164,8 +178,12 @@ CHECKS += [
          "Additionally PROVED (the sidecars of C09 and C11 discharged again under this property): the two pieces of state a run can inherit - "
          "find_unique_graphs empties job_hashes before hashing, its postcondition (one row per root of the window; ValueError only for an empty window, "
          "never IntegrityError) does not depend on the rows found at entry; a fresh DataHolder has the default time range and its window is then the "
-         "whole time axis (lemma no_ingestion_means_everything).",
-         "DESIGN.md 4/C15"),
+         "whole time axis (lemma no_ingestion_means_everything). And PROVED (contracts/c_run.py, 25 clauses): the composition of a run - without "
+         "ingestion otel_to_pv starts from the store as found and from a FRESH holder (default time range: nothing is inherited from an earlier process "
+         "or derived from what is stored), with ingestion from the store as found plus the source with the range tracked from the default one; the only "
+         "writes to the store are the three cleaning steps in their fixed order and the hash rows of find_unique_graphs (store operations are TRUSTED "
+         "leaves named by uninterpreted functions).",
+         "DESIGN.md I.2 (composition of one run), 4/C15"),
 ]
 
 NOT_APPLICABLE = [
